@@ -910,7 +910,17 @@ def check_merge_once(idx, run):
               "remaining symbols", loc(mod, func))
 
 
+
+GUARDED = [
+    ("psyclone.psyir.symbols.symbol_table.SymbolTable", m) for m in (
+        "add", "rename_symbol", "remove", "swap_symbol_properties",
+        "check_for_clashes", "specify_argument_list", "_validate_arg_list",
+        "lookup", "lookup_with_tag", "attach", "new_symbol",
+        "find_or_create_tag", "merge", "_handle_symbol_clash")]
+
 def check(idx, run):
+    from sa.guards import check_guards
+    check_guards(idx, run, "C16.R6", GUARDED)
     run.explanation = (
         "R1 def-use: keys stored into / tested against the name map come "
         "from _normalize; R2 who-may-write scan of the three maps; R3/R4 "
